@@ -12,7 +12,7 @@ RULE = ('one run = one adversarial connection (garbage / mutated / truncated req
         'one real executor, concurrent and subsequent; each canary is first run alone in a twin world and its '
         'transcripts compared; non-trivial = the adversary did something other than a clean exchange while a '
         'canary was in flight or before a later canary; distinct = distinct event-log digests')
-PROBES = ['adv_upstream_gone_with_output_pending', 'adv_garbage', 'adv_truncated', 'adv_nonutf8', 'adv_bad_upstream', 'adv_plugin_raises',
+PROBES = ['adv_upstream_bad_framing', 'adv_upstream_gone_with_output_pending', 'adv_garbage', 'adv_truncated', 'adv_nonutf8', 'adv_bad_upstream', 'adv_plugin_raises',
           'adv_faults', 'adv_reverse', 'adv_web', 'adv_tunnel', 'canary_concurrent', 'canary_subsequent',
           'worker_survived_task_exception', 'blocking_connect_timeout']
 COMPONENTS = {
@@ -138,6 +138,10 @@ def run_one(tape: Any, cfg: Dict[str, Any], forbid: FrozenSet[str] = frozenset()
         slow_reader = g.feature('adv_slow_reader', 0.15)
         if slow_reader:
             arole = ['forward', 'reverse'][tape.draw(2, 'sr-role')]
+        # archetype: a well-formed request whose upstream answers with hostile message framing
+        hostile_upstream = (not slow_reader) and g.feature('adv_hostile_upstream', 0.1)
+        if hostile_upstream:
+            arole = ['forward', 'reverse'][tape.draw(2, 'hu-role')]
         w.probe({'forward': 'adv_bad_upstream', 'tunnel': 'adv_tunnel', 'web': 'adv_web', 'reverse': 'adv_reverse'}[arole])
         faults = scen.setup_faults(w, tape, {
             'send': ['ECONNRESET', 'EPIPE', 'ETIMEDOUT', 'EHOSTUNREACH', 'ENOBUFS', 'short', 'eagain'],
@@ -153,9 +157,11 @@ def run_one(tape: Any, cfg: Dict[str, Any], forbid: FrozenSet[str] = frozenset()
             w.probe('adv_faults')
         # the adversary's upstream
         up_mode = ['accept', 'refuse', 'blackhole', 'hostunreach', 'netunreach', 'reset', 'noresolve',
-                   'stall', 'garbage', 'close_mid', 'big_close'][tape.draw(11, 'upmode')]
+                   'stall', 'garbage', 'close_mid', 'big_close', 'bad_framing'][tape.draw(12, 'upmode')]
         if slow_reader:
             up_mode = 'big_close'
+        if hostile_upstream:
+            up_mode = 'bad_framing'
         if up_mode == 'blackhole' and not g.note('blocking_connect_timeout'):
             up_mode = 'refuse'
         if up_mode == 'blackhole':
@@ -168,6 +174,14 @@ def run_one(tape: Any, cfg: Dict[str, Any], forbid: FrozenSet[str] = frozenset()
                 return [('wait_eof',)]
             if up_mode == 'garbage':
                 return [('wait_rx', lambda p: len(p.rx) > 0), ('send', b'\x00\xffnot http at all\r\n\r\n' * 3, 'dribble', 16), ('close',)]
+            if up_mode == 'bad_framing':
+                w.probe('adv_upstream_bad_framing')
+                r = [b'HTTP/1.1 200 OK\r\nContent-Length: 10\r\nContent-Length: 0\r\n\r\nabc',
+                     b'HTTP/1.1 200 OK\r\nTransfer-Encoding: chunked\r\n\r\n-5\r\nabc\r\n0\r\n\r\n',
+                     b'HTTP/1.1 200 OK\r\nTransfer-Encoding: chunked\r\n\r\nzz\r\nabc\r\n0\r\n\r\n',
+                     b'HTTP/1.1 200 OK\r\nContent-Length: -1\r\n\r\nabc',
+                     b'HTTP/1.1 200 OK\r\nContent-Length: 3\r\nTransfer-Encoding: chunked\r\n\r\nffffffffffffffffffff\r\nabc'][tape.draw(5, 'badframing')]
+                return [('wait_rx', lambda p: len(p.rx) > 0), ('send', r, 'dribble', 16), ('sleep', 0.2), ('close',)]
             if up_mode == 'big_close':
                 # a large response, then the upstream goes away while the proxy may still hold output for a slow client
                 w.probe('adv_upstream_gone_with_output_pending')
@@ -191,7 +205,7 @@ def run_one(tape: Any, cfg: Dict[str, Any], forbid: FrozenSet[str] = frozenset()
         host = b'adv.example' if up_mode != 'noresolve' else b'nosuch.example'
         # the adversary's client bytes
         akind = ['valid', 'garbage', 'truncated', 'nonutf8', 'mutated'][tape.weighted([3, 2, 3, 2, 2], 'akind')]
-        if slow_reader:
+        if slow_reader or hostile_upstream:
             akind = 'valid'
         if arole == 'forward':
             base = b'GET http://' + host + b'/a HTTP/1.1\r\nHost: ' + host + b'\r\nX-A: 1\r\n\r\n'
@@ -235,6 +249,8 @@ def run_one(tape: Any, cfg: Dict[str, Any], forbid: FrozenSet[str] = frozenset()
             cutoff = tape.draw(len(data) + 1, 'cutoff')
             w.probe('adv_truncated')
         ending = ['close', 'reset', 'shut_wr', 'hang', 'follow'][tape.draw(5, 'ending')]
+        if hostile_upstream:
+            cutoff = len(data)
         if slow_reader:
             cutoff = len(data)
             ending = 'hang'
